@@ -24,6 +24,7 @@ import (
 //	compile <path>           -> ok <first> <start> <spath> <regex> <names> | panic
 //	build <path> <k=v,...>   -> <path> <sorted query pairs>          (NewBuildRequestURL().Path(p).Build(M))
 //	cnew <cap> | cset <k> <id> | cget <k> | cdel <k> | chas <k> | clen | ckeys      (cachedRoutes)
+//	comb <n1> <n2> | pclone <nil|-|k=v,…> | rcopy <name> <path> <methods> <nmw> <params> | wopt <routes> <opts of New> <opts of WithOptions>
 //	rinit <ct|-> <n:e,...> | rblob <ct> <data> | rtext <data> | rhtml <data> | rjson | rjsonp <cb> | rxml | rauto <accept> | rst
 //	     (pkg/render on a plain recording writer; the value rendered is the string "x"; only the error flags of the script count)
 //	winit <n:e,...> | wh <code> | wr <bytes> | fl | wst                              (responseWriter, through a Context
@@ -108,7 +109,63 @@ func gcRandPath(r *Rand) string {
 
 func (gencodeEngine) Gen(r *Rand, tier string) Case {
 	var ops []string
-	switch r.Intn(7) {
+	switch r.Intn(8) {
+	case 7: // combineHandlers, Params.clone, copyWithParams, New/WithOptions
+		kv := func() string {
+			switch r.Intn(5) {
+			case 0:
+				return "nil"
+			case 1:
+				return "-"
+			}
+			m := map[string]string{}
+			for i, n := 0, r.Range(1, 4); i < n; i++ {
+				m[r.Pick([]string{"id", "name", "a", "all", "é", "x y"})] = r.Pick([]string{"1", "", "abc", "a/b", "é", " "})
+			}
+			return gcPairs(m)
+		}
+		opts := func() string {
+			var o []string
+			for i, n := 0, r.Intn(4); i < n; i++ {
+				switch r.Intn(8) {
+				case 0:
+					o = append(o, "enc")
+				case 1:
+					o = append(o, "cache")
+				case 2:
+					o = append(o, "strict")
+				case 3:
+					o = append(o, "fb")
+				case 4:
+					o = append(o, "mna")
+				case 5:
+					o = append(o, "icpt:"+hx(r.Pick([]string{"/x", " /a/ ", "", "maintenance"})))
+				case 6:
+					o = append(o, "max:"+strconv.Itoa(r.PickInt([]int{0, 1, 7, 1000, 65535})))
+				default:
+					o = append(o, "cnum:"+strconv.Itoa(r.PickInt([]int{0, 1, 2, 50})))
+				}
+			}
+			if len(o) == 0 {
+				return "-"
+			}
+			return strings.Join(o, ",")
+		}
+		for i, n := 0, r.Range(3, 8); i < n; i++ {
+			switch r.Intn(4) {
+			case 0:
+				ops = append(ops, fmt.Sprintf("comb %d %d", r.PickInt([]int{0, 0, 1, 2, 5, 30}), r.PickInt([]int{0, 1, 1, 3, 33})))
+			case 1:
+				ops = append(ops, "pclone "+kv())
+			case 2:
+				ms := r.Pick([]string{"-", hx("GET"), hx("GET") + "," + hx("POST"), hx("PUT") + "," + hx("PATCH") + "," + hx("DELETE")})
+				ops = append(ops, fmt.Sprintf("rcopy %s %s %s %d %s", hx(r.Pick([]string{"", "user", "a.b"})),
+					hx(r.Pick([]string{"/u/{id}", "/blog[/{cat}]", "/f/{p:.+}", "/{a}/{b:\\d+}"})), ms, r.Intn(4), kv()))
+			default:
+				ops = append(ops, fmt.Sprintf("wopt %d %s %s", r.PickInt([]int{0, 0, 1, 2}), opts(), opts()))
+			}
+		}
+		return Case{Ops: ops, Tag: "config"}
 	case 6: // pkg/render
 		for i, n := 0, r.Range(1, 3); i < n; i++ {
 			var sc []string
@@ -264,6 +321,72 @@ func (gencodeEngine) Gen(r *Rand, tier string) Case {
 		ops = append(ops, "ckeys", "clen")
 		return Case{Ops: ops, Tag: "lru-cap" + strconv.Itoa(cap)}
 	}
+}
+
+// gcParseParams: "nil" = a nil map, "-" = an empty one, otherwise hex pairs k=v,...
+func gcParseParams(s string) (rux.Params, bool) {
+	if s == "nil" {
+		return nil, true
+	}
+	p := rux.Params{}
+	if s == "-" {
+		return p, true
+	}
+	for _, kv := range strings.Split(s, ",") {
+		k, v, ok := strings.Cut(kv, "=")
+		if !ok {
+			return nil, false
+		}
+		ks, ok1 := unhxDash(k)
+		vs, ok2 := unhxDash(v)
+		if !ok1 || !ok2 {
+			return nil, false
+		}
+		p[ks] = vs
+	}
+	return p, true
+}
+
+func unhxDash(s string) (string, bool) {
+	if s == "-" {
+		return "", true
+	}
+	return unhx(s)
+}
+
+func gcParseOpts(s string) ([]func(*rux.Router), bool) {
+	if s == "-" {
+		return nil, true
+	}
+	var out []func(*rux.Router)
+	for _, o := range strings.Split(s, ",") {
+		name, arg, _ := strings.Cut(o, ":")
+		switch name {
+		case "enc":
+			out = append(out, rux.UseEncodedPath)
+		case "cache":
+			out = append(out, rux.EnableCaching)
+		case "strict":
+			out = append(out, rux.StrictLastSlash)
+		case "fb":
+			out = append(out, rux.HandleFallbackRoute)
+		case "mna":
+			out = append(out, rux.HandleMethodNotAllowed)
+		case "icpt":
+			v, ok := unhxDash(arg)
+			if !ok {
+				return nil, false
+			}
+			out = append(out, rux.InterceptAll(v))
+		case "max":
+			out = append(out, rux.MaxNumCaches(uint16(atoi(arg))))
+		case "cnum":
+			out = append(out, rux.CachingWithNum(uint16(atoi(arg))))
+		default:
+			return nil, false
+		}
+	}
+	return out, true
 }
 
 // gcRec is the http.ResponseWriter below rux: it records the calls it receives and answers Write from a script
@@ -478,6 +601,70 @@ func (gencodeEngine) Run(ops []string) (ans []string, oracle []string) {
 				return gcTF(cache.Delete(arg(1)))
 			case f[0] == "chas" && len(f) == 2:
 				return gcTF(cache.Has(arg(1)))
+			case f[0] == "comb" && len(f) == 3:
+				order := rux.VerifCombineHandlers(atoi(f[1]), atoi(f[2]))
+				if len(order) == 0 {
+					return "-"
+				}
+				out := make([]string, len(order))
+				for i, v := range order {
+					out[i] = strconv.Itoa(v)
+				}
+				return strings.Join(out, ",")
+			case f[0] == "pclone" && len(f) == 2:
+				p, ok := gcParseParams(f[1])
+				if !ok {
+					return "bad-op"
+				}
+				cl := rux.VerifParamsClone(p)
+				if cl == nil {
+					return "nil"
+				}
+				return gcPairs(cl)
+			case f[0] == "rcopy" && len(f) == 6:
+				ps, ok := gcParseParams(f[5])
+				if !ok {
+					return "bad-op"
+				}
+				var ms []string
+				if f[3] != "-" {
+					for _, p := range strings.Split(f[3], ",") {
+						ms = append(ms, mustUnhx(p))
+					}
+				}
+				rt := rux.New().AddNamed(arg(1), arg(2), func(*rux.Context) {}, ms...)
+				for i, n := 0, atoi(f[4]); i < n; i++ {
+					rt.Use(func(*rux.Context) {})
+				}
+				cp := rt.VerifCopyWithParams(ps)
+				_, _, regex, matches := cp.VerifRouteInfo()
+				pp := "nil"
+				if cp.VerifParams() != nil {
+					pp = gcPairs(cp.VerifParams())
+				}
+				return fmt.Sprintf("%s %s %s %d %s %s %d %s", hx(cp.Name()), hx(cp.Path()), hxList(cp.Methods()), len(cp.Handlers()),
+					gcTF(cp.Handler() != nil), gcTF(regex == ""), len(matches), pp)
+			case f[0] == "wopt" && len(f) == 4:
+				o1, ok1 := gcParseOpts(f[2])
+				o2, ok2 := gcParseOpts(f[3])
+				if !ok1 || !ok2 {
+					return "bad-op"
+				}
+				rt := rux.New(o1...)
+				for i, n := 0, atoi(f[1]); i < n; i++ {
+					rt.GET("/r"+strconv.Itoa(i), func(*rux.Context) {})
+				}
+				word := "ok"
+				func() {
+					defer func() {
+						if recover() != nil {
+							word = "panic"
+						}
+					}()
+					rt.WithOptions(o2...)
+				}()
+				st, fb, mna, ca, enc, icpt, max, ccap, _, _, _ := rt.VerifConfig()
+				return fmt.Sprintf("%s %s %s %s %s %s %s %d %d", word, gcTF(st), gcTF(fb), gcTF(mna), gcTF(ca), gcTF(enc), hx(icpt), max, ccap)
 			case f[0] == "clen" && len(f) == 1:
 				return strconv.Itoa(cache.Len())
 			case f[0] == "ckeys" && len(f) == 1:
